@@ -122,6 +122,13 @@ inductive Reachable (e : Env) (s0 : St) : St → Prop
   | refl : Reachable e s0 s0
   | step {s s' : St} (ev : Ev) : Reachable e s0 s → step e s ev = some s' → Reachable e s0 s'
 
+/-- run a list of events: `none` as soon as one of them is not enabled.  This is what the trace
+    validation does with the events it derives from a recorded run of the real `AssembleFile`
+    (driver command `asmconc.accept`). -/
+def run (e : Env) : St → List Ev → Option St
+  | s, [] => some s
+  | s, ev :: evs => (step e s ev).bind fun s' => run e s' evs
+
 /-- initial state: the target truncated to the index length, `n` idle workers -/
 def init (e : Env) (prior : Bytes) (n : Nat) : St :=
   { file := truncate prior (indexLength e.chunks), workers := List.replicate n {} }
